@@ -24,9 +24,7 @@ The statement only constrains NON-EMPTY answers (an empty answer is always allow
 An exception on a well-formed input is a violation.
 """
 import itertools
-import os
 import random
-import sys
 
 FUNCTION = 'src.ir.type_utils.unify_types'
 TOP = ('B', 'Any')
@@ -320,6 +318,8 @@ def sub(s, t, env, d=0):
         return False
     if t[0] == 'V' and env.is_open(t[1]):
         return satisfies(s, t[1], env, d + 1)
+    if s[0] == 'V' and env.is_open(s[1]) and satisfies(t, s[1], env, d + 1):
+        return True
     for u in env.supers(s):
         if sub(u, t, env, d + 1):
             return True
@@ -335,12 +335,14 @@ def contained(a, b, v, env, d):
         return True
     if b[0] == 'V' and env.is_open(b[1]):
         return satisfies(a, b[1], env, d + 1)          # open position: any component within the variable's bound
+    if a[0] == 'V' and env.is_open(a[1]):
+        return satisfies(b, a[1], env, d + 1)          # (the pattern side is on the left below an `in` projection)
     if a[0] == 'W' and a[1] == STAR:
         return b == ('W', OUT, TOP)
     va, xa = (a[1], a[2]) if a[0] == 'W' else (v, a)
     vb, xb = (b[1], b[2]) if b[0] == 'W' else (v, b)
     if vb == INV:
-        return va == INV and match_eq(xa, xb, env, d + 1) is None
+        return va == INV and (match_eq(xa, xb, env, d + 1) is None or match_eq(xb, xa, env, d + 1) is None)
     if vb == OUT:
         return va in (INV, OUT) and sub(xa, xb, env, d + 1)
     return va in (INV, IN) and sub(xb, xa, env, d + 1)
@@ -405,7 +407,9 @@ def judge(table, target, pattern, same_type, pairs):
             bad.append(('unifier:' + r, 'pattern under the assignment = %s equals the target %s up to open variables '
                         'within their bounds' % (show(inst), show(target))))
     else:
-        if not sub(target, inst, env):
+        # literally: a declared (transitive) supertype equal to the instantiated pattern up to open variables;
+        # more generally: any supertype in the declarative relation
+        if all(match_eq(s, pattern, env) for s in env.supstar(target)) and not sub(target, inst, env):
             rs = [match_eq(s, pattern, env) for s in env.supstar(target)
                   if s[0] == pattern[0] and (s[0] != 'P' or s[1] == pattern[1])]
             r = rs[0] if rs and rs[0] else 'mismatch'
@@ -419,31 +423,29 @@ def judge(table, target, pattern, same_type, pairs):
 
 
 def wellformed(t, table, env=None):
-    """arguments respect the bounds of the class parameters; projections only on invariant parameters, not nested"""
+    """the input domain: arguments (and the bounds of projections) respect the bounds of the class parameters; a use-site
+    projection never conflicts with the declared variance and is not nested directly in a projection; the same holds
+    for every declared supertype after substitution of the arguments (a type whose supertype would be ill-formed, e.g.
+    `class G<P> : Cov<P>` used as G<in X>, is not a type of the language)"""
     env = env or Env(table, {})
     if t[0] == 'P':
         params = table.generic[t[1]][0]
         if len(params) != len(t[2]):
             return False
+        rigid = Env(table, {n: V(n) for n in table.pvars})     # a pattern variable is judged by its own bound
         for a, p in zip(t[2], params):
-            if a[0] == 'W':
-                if a[1] != STAR and (p[1] != INV or a[2][0] == 'W'):
-                    return False
-                if a[1] == STAR:
-                    continue
-                x = a[2]
-                if not wellformed(x, table, env):
-                    return False
-                if a[1] == OUT and p[2] is not None and not sub(x, p[2], env):
-                    return False
+            if a[0] == 'W' and a[1] == STAR:
                 continue
-            if not wellformed(a, table, env):
-                return False
-            if p[2] is not None:
-                # a pattern variable is judged by its own bound (rigidly), not existentially
-                if not sub(a, p[2], Env(table, {n: V(n) for n in table.pvars})):
+            x = a
+            if a[0] == 'W':
+                if (p[1] != INV and p[1] != a[1]) or a[2][0] == 'W':
                     return False
-        return True
+                x = a[2]
+            if not wellformed(x, table, env):
+                return False
+            if p[2] is not None and not sub(x, p[2], rigid):
+                return False
+        return all(wellformed(u, table, env) for u in env.supers(t))
     if t[0] == 'W':
         return t[2] is None or wellformed(t[2], table, env)
     return True
@@ -566,7 +568,7 @@ def evaluate(real, target, pattern, same_type):
     """-> (nontrivial, [(kind, expected, actual)])"""
     st, res = real.unify(target, pattern, same_type)
     if st == 'exc':
-        return True, [('exception', 'an assignment (possibly empty) is returned', res)]
+        return True, [('exception:' + res.split(':')[0], 'an assignment (possibly empty) is returned', res)]
     if not res:
         return False, []
     return True, [(k, e, show_map(res)) for k, e in judge(real.table, target, pattern, same_type, res)]
@@ -630,26 +632,30 @@ def heads(env, t):
     return [(x[0], x[1]) for x in env.supstar(t)]
 
 
+def uniq(xs):
+    return list(dict.fromkeys(xs))
+
+
 def fixed_space(table, tier):
-    """yields (target, pattern, same_type); exhaustive within the stated bounds"""
+    """yields groups (target, [patterns], same_type); exhaustive within the stated bounds and free of repetitions"""
     env = Env(table, {})
     at = grounds(table) + [V(n) for n, _ in table.svars_l]
     ap = grounds(table) + [V(n) for n, _ in table.pvars_l]
-    t1 = at + level1(table, at, table.small_t)
-    p1 = ap + level1(table, ap, table.small_p)
+    t1 = uniq(at + level1(table, at, table.small_t))
+    p1 = uniq(ap + level1(table, ap, table.small_p))
+    # (1) every depth<=1 target against every depth<=1 pattern, both modes
     for mode in (True, False):
         for t in t1:
-            for p in p1:
-                yield t, p, mode
+            yield t, p1, mode
     # depth 2, related heads only (same head, or the pattern's head among the heads of the target's supertypes)
     it, ip = table.small_t[:4], table.small_p[:4]
     n = table.nest
-    tw_t = [P(n[0], x) for x in it[:3]] + [P(n[1], it[0])] if len(table.generic[n[1]][0]) == 1 else \
-        [P(n[0], x) for x in it[:3]]
-    tw_p = [P(n[0], x) for x in ip[:4]] + ([P(n[1], ip[1])] if len(table.generic[n[1]][0]) == 1 else [])
-    t2 = level2(table, it, it, tw_t)
-    p2 = level2(table, ip, ip, tw_p)
-    # subclasses of nest classes instantiated with small atoms / one nested instance, as targets of supertype mode
+    one = len(table.generic[n[1]][0]) == 1
+    tw_t = [P(n[0], x) for x in it[:3]] + ([P(n[1], it[0])] if one else [])
+    tw_p = [P(n[0], x) for x in ip[:4]] + ([P(n[1], ip[1])] if one else [])
+    t2 = uniq(level2(table, it, it, tw_t))
+    p2 = uniq(level2(table, ip, ip, tw_p))
+    # subclasses of the nest classes instantiated with small atoms / one nested instance: targets for supertype mode
     sub_t = []
     for name, params, sups in table.generic_l:
         if sups and name not in table.nest:
@@ -657,31 +663,32 @@ def fixed_space(table, tier):
                 t = P(name, *args)
                 if wellformed(t, table):
                     sub_t.append(t)
-    byhead = {}
+    p2h, p1h = {}, {}
     for p in p2:
-        byhead.setdefault((p[0], p[1]), []).append(p)
-    p1h = {}
+        p2h.setdefault((p[0], p[1]), []).append(p)
     for p in p1:
         p1h.setdefault((p[0], p[1]), []).append(p)
-    for t in t2 + sub_t:
-        hs = heads(env, t)
+    in_t1 = set(t1)
+    # (2) depth-2 / subclass targets against depth-2 and depth-1 patterns with a related head
+    for t in uniq(t2 + sub_t):
+        hs = uniq(heads(env, t))
         for h in hs:
-            for p in byhead.get(h, []):
-                yield t, p, True
-                yield t, p, False
-        if tier == 'thorough':
-            for h in hs:
-                for p in p1h.get(h, []):
-                    yield t, p, False
+            ps = p2h.get(h, []) + ([] if t in in_t1 else p1h.get(h, []))
+            if ps:
+                yield t, ps, False
+                if h == hs[0]:
+                    yield t, ps, True
+    # (3) depth-1 targets against depth-2 patterns with a related head
     for t in t1:
         if t[0] != 'P':
             continue
-        hs = heads(env, t)
+        hs = uniq(heads(env, t))
         for h in hs:
-            for p in byhead.get(h, []):
-                yield t, p, False
+            ps = p2h.get(h, [])
+            if ps:
+                yield t, ps, False
                 if h == hs[0]:
-                    yield t, p, True
+                    yield t, ps, True
 
 
 # ---- random part
@@ -776,9 +783,9 @@ def random_space(table, rnd, n):
         if not wellformed(p, table):
             continue
         targets = [t, mutate(rnd, table, t), mutate(rnd, table, mutate(rnd, table, t)), rnd_target(rnd, table, 2)]
-        for x in targets:
-            yield x, p, True
-            yield x, p, False
+        for x in uniq(targets):
+            yield x, [p], True
+            yield x, [p], False
 
 
 # ------------------------------------------------------------------------------------------------ driver
@@ -796,6 +803,7 @@ def run(tier, seed, stop_first=False):
     samples = []
     violations = []
     seen_kinds = set()
+    nt_seen = set()
 
     def record(table, origin, t, p, mode, found):
         for kind, expected, actual in found:
@@ -808,28 +816,47 @@ def run(tier, seed, stop_first=False):
                 call='unify_types(%s, %s, same_type=%s)' % (show(t), show(p), mode),
                 expected=expected, actual=actual))
 
-    def drive(table, origin, space):
+    def drive(table, origin, space, dedup=False):
         nonlocal evals, nontrivial
         real = Real(table)
         real.model_check()
+        unify, factory, build = real.tu.unify_types, real.factory, real.build
+        objs = {}
         seen = set()
-        for t, p, mode in space:
-            key = (t, p, mode)
-            if key in seen:
-                continue
-            seen.add(key)
-            evals += 1
-            nt, found = evaluate(real, t, p, mode)
-            if nt:
-                nontrivial += 1
-                per_table[table.name + '/' + table.lang] = per_table.get(table.name + '/' + table.lang, 0) + 1
+        tname = table.name + '/' + table.lang
+        for t, ps, mode in space:
+            a = build(t)
+            k = id(ps)
+            if k not in objs:
+                objs[k] = (ps, [build(p) for p in ps])     # (ps kept alive so that id() stays unique)
+            for p, b in zip(*objs[k]):
+                if dedup:
+                    key = (t, p, mode)
+                    if key in seen:
+                        continue
+                    seen.add(key)
+                evals += 1
+                try:
+                    r = unify(a, b, factory, same_type=mode)
+                    if not r and isinstance(r, dict):
+                        continue                           # empty answer: nothing to judge
+                except Exception:
+                    pass
+                nt, found = evaluate(real, t, p, mode)
+                key = (tname, t, p, mode)
+                if key not in nt_seen:
+                    nt_seen.add(key)
+                    nontrivial += 1
+                    per_table[tname] = per_table.get(tname, 0) + 1
                 if not found and len(samples) < 6 and depth(p) >= 1 + (len(samples) % 2) and (nontrivial % 97 == 1):
                     samples.append('unify_types(%s, %s, same_type=%s) = %s'
                                    % (show(t), show(p), mode, show_map(real.unify(t, p, mode)[1])))
-            if found:
-                record(table, origin, t, p, mode, found)
-                if stop_first:
-                    return True
+                if found:
+                    record(table, origin, t, p, mode, found)
+                    if stop_first:
+                        return True
+            if len(ps) == 1:
+                del objs[k]
         return False
 
     stop = False
@@ -843,13 +870,13 @@ def run(tier, seed, stop_first=False):
         for base in (1, 2) if tier == 'quick' else (1, 2, 3, 4):
             rnd = random.Random(1000 + base)
             for table in _tables(tier):
-                stop = stop or drive(table, 'random(base %d)' % base, random_space(table, rnd, n_fam))
+                stop = stop or drive(table, 'random(base %d)' % base, random_space(table, rnd, n_fam), dedup=True)
         rnd = random.Random('c10-%s' % seed)
         for i in range(n_rt):
             if stop:
                 break
             table = random_table(rnd, i)
-            stop = drive(table, 'random(seed %s, table %d)' % (seed, i), random_space(table, rnd, n_fam))
+            stop = drive(table, 'random(seed %s, table %d)' % (seed, i), random_space(table, rnd, n_fam), dedup=True)
     if stop_first and violations:
         return dict(violations=violations)
     nt_tables = len(_tables(tier))
@@ -864,7 +891,10 @@ def run(tier, seed, stop_first=False):
             'random families (target, pattern generalized from the target or one of its supertypes, near-miss targets) on '
             'the fixed tables (fixed base seeds) and on %d random class tables (VERIF_SEED). Each non-empty answer is judged by '
             'an independent reference substitution / structural match up to open variables / declarative subtype relation; '
-            'an exception is a violation; an empty answer is always accepted (the statement does not ask for completeness). '
+            'an exception is a violation; an empty answer is always accepted (the statement does not ask for completeness; its '
+            'last clause "types that cannot be made to match yield the empty assignment" is checked as the contrapositive of the '
+            'first). Input domain = well-formed types: class-parameter bounds respected, no projection against the declared '
+            'variance (also not in a supertype after substitution), no projection directly inside a projection. '
             'A triple is non-trivial if the real answer is non-empty (or an exception): only then the property constrains '
             'anything; distinct by (table, target, pattern, mode).' % (nt_tables, sorted({t.lang for t in _tables(tier)}), n_rt))
     return dict(evaluations=evals, distinct_nontrivial=nontrivial, rule=rule, samples=samples, violations=violations,
